@@ -1,6 +1,6 @@
 """C16 - a missing spec means `[OPTIONS] ARG1 ARG2 ...`."""
 import itertools, random
-from vlib import core, specgen as g, groups as G
+from vlib import core, specgen as g, groups as G, structeq
 from props import groupcommon as gc
 
 PROP = "C16"
@@ -72,6 +72,14 @@ def run(tier, wd):
                 envs.append([rnd.choice(keys)])
             for env in envs:
                 groups.append({"rel": "same", "members": [{"si": si, "env": env, "argv": list(line)}, {"si": si + 1, "env": env, "argv": list(line)}]})
+    # unbounded part (binding C): the automaton the library compiles for the spec-less command is language-equivalent to
+    # Seq(Optional(Group(all)), Arg...) - and so is the one compiled from the explicit string
+    sv = structeq.check(rep, wd, binpath, progs, specs)
+    for s_, v in zip(specs, sv):
+        if v not in ("equivalent", "skipped"):
+            rep.violation("program %s, %s: compiled automaton vs `[OPTIONS] ARG...`: %s" % (progs[s_["prog"]], "no spec string" if s_["str"] is None else repr(s_["str"]), v),
+                          {"engine": "structeq", "prog": progs[s_["prog"]], "spec": s_["str"], "ast": s_["ast"]})
+    rep.cov["automata_equivalent_to_default_spec"] = sum(1 for v in sv if v == "equivalent")
     triples = gc.run_groups(rep, wd, binpath, progs, specs, groups, "implicit")
     # beside equal outcomes: both members agree with the reference for the explicit AST, and the usage line shows that spec
     out = []
@@ -101,4 +109,12 @@ def run(tier, wd):
 
 
 def replay(path, wd):
+    import json
+    with open(path) as f:
+        o = json.load(f)["replay"]
+    if o.get("engine") == "structeq":
+        rep = core.Report(PROP, "quick", "model_checking")
+        v = structeq.check(rep, wd, core.build_harness(), [o["prog"]], [{"ast": o["ast"], "str": o["spec"], "prog": 0}])[0]
+        print("replay: %s" % (v,))
+        return 0 if v == "equivalent" else 1
     return gc.rerun_replay(path, wd)
